@@ -142,7 +142,8 @@ def decls(vs, cs, rng, pfx):
         else:
             out.append(('double %s = 2.5;' if fp else 'int %s = 2;') % n)
     for k, c in enumerate(cs):
-        out.append('%schan %sc%d;' % ('broadcast ' if c[1] else '', pfx, k))
+        # plain, urgent, array and two-dimensional array declarations of the same channel kind
+        out.append('%s%schan %sc%d%s;' % (rng.choice(['', '', 'urgent ']), 'broadcast ' if c[1] else '', pfx, k, rng.choice(['', '', '[2]', '[2][3]'])))
     rng.shuffle(out)
     return '\n'.join(out)
 
@@ -244,6 +245,12 @@ def check(run):
                 rt = ('rate', hy, rv)
                 gg = [rt, ('and', ('cmp', (0, 1), (0, 0), '<='), rt), ('and', rt, ('cmp', (0, 1), (0, 0), '<')), ('forall', rt)][wrap]
                 d = base(); d['templs'][0]['invs'] = [gg]; docs.append(d)
+    # a hybrid clock's rate and a non-hybrid clock's rate in one invariant, in either order and around a comparison
+    for rvh in [('int', 0), ('int', 1), ('int', 3), ('dbl', 1)]:
+        for rv in [('int', 0), ('int', 1), ('int', 2), ('dbl', 0), ('dbl', 1), ('expr',)]:
+            hr, nr = ('rate', 1, rvh), ('rate', 0, rv)
+            for gg in (('and', hr, nr), ('and', nr, hr), ('and', ('cmp', (0, 1), (0, 0), '<='), ('and', nr, hr)), ('and', ('and', hr, ('cmp', (0, 1), (0, 0), '<')), nr)):
+                d = base(); d['templs'][0]['invs'] = [gg]; docs.append(d)
     for u in [('assign', 0, 0), ('assign', 1, 0, 'd'), ('assign', 1, 0, 'x'), ('assign', 1, 1), ('assign', 0, 1), ('other', 0), ('other', 1)]:
         for pos in range(3):
             d = base(); us = [('assign', 0, 0), ('other', 0)]; us.insert(pos, u); d['templs'][0]['edges'][0]['upds'] = us; docs.append(d)
@@ -298,7 +305,7 @@ def check(run):
     if mism:
         run.tie_broken('FeatureChecker model vs implementation verdicts', mism[:6] + [dict(total=len(mism))])
     run.cov.update(evaluations=len(docs), distinct_nontrivial=len(set(doc_sx(d) for d in docs)), traces_validated_against_impl=naccepted,
-                   rule='targeted: every (operand fp/clock class)^2 x 6 relational operators x 6 positions (root, either conjunct, nested conjunct, under forall) as guard and as invariant; every rate constant x hybrid x 4 positions; '
+                   rule='targeted: every (operand fp/clock class)^2 x 6 relational operators x 6 positions (root, either conjunct, nested conjunct, under forall) as guard and as invariant; every rate constant x hybrid x 4 positions; hybrid rate x non-hybrid rate in one invariant (4 shapes); '
                         'every update form x 3 list positions; clock/double initialisers and channels globally, locally and in a never-instantiated template; then seeded random documents with shuffled declaration and template order; '
                         'accepted models only: implementation verdict vs extracted Coq model, and verdict vs the specification predicates',
                    samples=samples, targeted=ntarget, accepted_models=naccepted, rejected_models_out_of_scope=nrej, verdict_histogram=hist)
